@@ -9,11 +9,11 @@ def run(report, tier):
     if tier == "quick":
         plan = [(P.P1(), None, 0, None), (P.P2(), 2, 0, None), (P.P3(), 1, 0, None), (P.P4(), 2, 0, None),
                 (P.P5(), 1, 0, None), (P.P6(), 1, 0, None), (P.P7(), 1, 0, None), (P.P8(), 1, 0, None),
-                (P.P9(), 2, 0, None), (P.P10(), 1, 0, None), (P.Z1(), 1, 0, None), (P.V1(), 1, 0, None)]
+                (P.P9(), 2, 0, None), (P.P10(), 1, 0, None), (P.Z1(), 1, 0, None), (P.V1(), 1, 0, None), (P.Q1(), 1, 0, None)]
     else:
         plan = [(P.P1(), None, 0, None), (P.P2(), 3, 0, None), (P.P3(), 2, 0, None), (P.P4(), None, 0, None),
                 (P.P5(), 2, 0, None), (P.P6(), 2, 0, None), (P.P7(), 2, 0, None), (P.P8(), 2, 0, None),
-                (P.P9(), None, 0, None), (P.P10(), 2, 0, None), (P.Z1(), 2, 0, None), (P.V1(), 2, 0, None)]
+                (P.P9(), None, 0, None), (P.P10(), 2, 0, None), (P.Z1(), 2, 0, None), (P.V1(), 2, 0, None), (P.Q1(), 2, 0, None)]
         grid = [(c, 2, 0, 60000) for c in P.grid()]
     run_pool_check(report, "C01", plan, grid=grid if tier != "quick" else None)
     # the virtual concurrency layer the exploration rests on, compared with the real primitives
